@@ -12,10 +12,10 @@ Import ListNotations.
 
 (* ================================================================ lists *)
 Lemma jsim_cons_inv m a b r1 r2 :
-  jsim m (a :: r1) (b :: r2) -> kind a <> KWord -> krel a b /\ jsim (next_mode m (kind a)) r1 r2.
-Proof. intros H K. inversion H; subst; [split; assumption | contradiction]. Qed.
+  jsim m (a :: r1) (b :: r2) -> swt (kind a) = false -> krel a b /\ jsim (next_mode m (kind a)) r1 r2.
+Proof. intros H K. inversion H; subst; [split; assumption | congruence]. Qed.
 
-Lemma jany_cons_inv a b r1 r2 : jany (a :: r1) (b :: r2) -> kind a <> KWord -> jany r1 r2.
+Lemma jany_cons_inv a b r1 r2 : jany (a :: r1) (b :: r2) -> swt (kind a) = false -> jany r1 r2.
 Proof. intros [m H] K. destruct (jsim_cons_inv _ _ _ _ _ H K) as [_ X]. eexists; exact X. Qed.
 
 Lemma jsim_app_ksim m a1 a2 b1 b2 : jsim m a1 a2 -> ksim b1 b2 -> jsim m (a1 ++ b1) (a2 ++ b2).
@@ -46,7 +46,7 @@ Proof.
   induction 1 as [m | m a b r1 r2 Hab _ IH | a b cm w r1 r2 Hab Ka Hc Hn Kw _ IH].
   - constructor.
   - cbn [filter]. rewrite <- (krel_kind _ _ Hab). destruct (negb (is_ws_block (kind a))); [constructor; assumption | exact IH].
-  - cbn [filter] in *. rewrite <- (krel_kind _ _ Hab), Ka, Hc. cbn [is_ws_block negb]. constructor; [exact Hab | exact IH].
+  - cbn [filter] in *. rewrite <- (krel_kind _ _ Hab), (swt_not_wsb _ Ka), Hc. cbn [is_ws_block negb]. constructor; [exact Hab | exact IH].
 Qed.
 
 (* ================================================================ tactics *)
@@ -55,9 +55,9 @@ Ltac hn_prim :=
         | (apply HN_textM_j; assumption) | (apply HN_textM_k; assumption) ].
 Ltac hl_prim :=
   first [ apply HL_rest | apply HL_peek | apply HL_at_kind | apply HL_consume_rest | apply HL_ws_comments
-        | (apply HL_consume; discriminate) | (apply HL_bump; discriminate)
+        | (apply HL_consume; reflexivity) | (apply HL_bump; reflexivity)
         | (apply HL_until; reflexivity) | (apply HL_consume_while; reflexivity)
-        | (apply HL_consume_while_noword; reflexivity)
+        | (apply HL_consume_while_noword; let k := fresh "k" in let H := fresh "H" in intros k H; destruct k; try discriminate H; reflexivity)
         | (apply HN_of; hn_prim) ].
 Ltac hl_bind := eapply HL_bind; [hl_prim|].
 Ltac hn_err_ret := eapply HN_bind; [first [apply HN_error | apply HN_warn]|]; intros _ _ _; apply HN_ret.
@@ -98,7 +98,7 @@ Section Fun.
     destruct (position_skipn _ _ _ P1) as (sep1 & a1 & E1 & K1).
     destruct (position_skipn _ _ _ P2) as (sep2 & a2 & E2 & K2).
     rewrite E1, E2 in *. apply tkb_true in K1.
-    assert (Kw : kind sep1 <> KWord) by (rewrite K1; discriminate).
+    assert (Kw : swt (kind sep1) = false) by (rewrite K1; reflexivity).
     destruct (jsim_cons_inv _ _ _ _ _ Xs Kw) as [Hsep Ha].
     eapply HN_bind; [apply HN_textM_j; eexists; exact Ha|]. intros at1 at2 Hat.
     eapply HN_bind with (RA := orel trel).
@@ -113,7 +113,7 @@ Section Fun.
   (* ================================================================ B. single-line blocks *)
   Lemma metadata_entry_j : HL jany (orel mdrel) (metadata_entry cfg) (metadata_entry cfg) jany.
   Proof.
-    unfold metadata_entry. eapply HL_obindM; [apply HL_consume; discriminate | | auto]. intros m1 m2 _.
+    unfold metadata_entry. eapply HL_obindM; [apply HL_consume; reflexivity | | auto]. intros m1 m2 _.
     hl_bind. intros kp1 kp2 _. hl_bind. intros [k1|] [k2|] Hk; cbn in Hk; try contradiction.
     - hl_bind. intros key1 key2 Hkey.
       hl_bind. intros c1 c2 _. hl_bind. intros vp1 vp2 _. hl_bind. intros v1 v2 Hv.
@@ -128,7 +128,7 @@ Section Fun.
 
   Lemma section_j : HL jany (orel erel) (section_p cfg) (section_p cfg) jany.
   Proof.
-    unfold section_p. eapply HL_obindM; [apply HL_consume; discriminate | | auto]. intros e1 e2 _.
+    unfold section_p. eapply HL_obindM; [apply HL_consume; reflexivity | | auto]. intros e1 e2 _.
     hl_bind. intros x1 x2 _. hl_bind. intros np1 np2 _. hl_bind. intros n1 n2 Hn.
     hl_bind. intros name1 name2 Hname.
     hl_bind. intros y1 y2 _. hl_bind. intros w1 w2 _. hl_bind. intros r1 r2 Hr.
@@ -189,7 +189,7 @@ Section Fun.
     apply (St_rest _ _ _ _ S). split; [exact Hr | reflexivity].
   Qed.
 
-  Lemma HJ_bump_any_m m k : k <> KWord ->
+  Lemma HJ_bump_any_m m k : swt k = false ->
     HJ (St (fun r1 r2 => jsim m r1 r2 /\ hdk r1 = k)) bump_any bump_any
        (fun a s1 b s2 => (krel a b /\ kind a = k) /\ St (jsim (next_mode m k)) s1 s2).
   Proof.
@@ -200,7 +200,7 @@ Section Fun.
     - congruence.
   Qed.
 
-  Lemma HJ_consume_mk k m : k <> KWord ->
+  Lemma HJ_consume_mk k m : swt k = false ->
     HJ (St (jsim m)) (consume k) (consume k)
        (fun o1 s1 o2 s2 => orel (fun a b => krel a b /\ kind a = k) o1 o2 /\ St (jsim (match o1 with Some _ => next_mode m k | None => m end)) s1 s2).
   Proof.
@@ -210,10 +210,10 @@ Section Fun.
     - rewrite <- (krel_kind _ _ Hab). destruct (tk_eqb (kind a) k) eqn:E.
       + apply tkb_true in E. split; [split; [exact Hab | exact E]|]. apply (St_step1 _ _ _ _ _ _ _ _ S). rewrite <- E. exact Hr.
       + split; [exact I | exact S].
-    - rewrite <- (krel_kind _ _ Hab), Ka. rewrite (tkb_neq KWord k) by congruence. split; [exact I | exact S].
+    - rewrite <- (krel_kind _ _ Hab), (swt_neq _ _ Ka Kk). split; [exact I | exact S].
   Qed.
 
-  Lemma HJ_bump_m k m : k <> KWord ->
+  Lemma HJ_bump_m k m : swt k = false ->
     HJ (St (jsim m)) (bump k) (bump k)
        (fun a s1 b s2 => (krel a b /\ kind a = k) /\ St (jsim (next_mode m k)) s1 s2).
   Proof.
@@ -222,7 +222,7 @@ Section Fun.
     - exact I.
     - rewrite <- (krel_kind _ _ Hab). destruct (tk_eqb (kind a) k) eqn:E; [|exact I]. apply tkb_true in E.
       split; [split; [exact Hab | exact E]|]. apply (St_step1 _ _ _ _ _ _ _ _ S). rewrite <- E. exact Hr.
-    - rewrite <- (krel_kind _ _ Hab), Ka. rewrite (tkb_neq KWord k) by congruence. exact I.
+    - rewrite <- (krel_kind _ _ Hab), (swt_neq _ _ Ka Kk). exact I.
   Qed.
 
   Lemma HJ_until_m f m : f KLineComment = false -> f KBlockComment = false -> f KWs = false ->
@@ -262,14 +262,14 @@ Section Fun.
        (fun o1 s1 o2 s2 => orel (jsim m) o1 o2 /\ St (jsim (match o1 with Some l => mode_after m l | None => m end)) s1 s2).
   Proof.
     unfold paren_group. apply (HJ_with_recover_m (jsim m) m (fun l => mode_after m l)).
-    unfold obindM. eapply HJ_bind_d; [apply (HJ_consume_mk KOpenParen m); discriminate|].
+    unfold obindM. eapply HJ_bind_d; [apply (HJ_consume_mk KOpenParen m); reflexivity|].
     intros [op1|] [op2|] Hop; cbn [orel] in Hop; try contradiction; cbv beta iota;
       [|apply HJ_ret; intros s1 s2 S; split; [exact I | exact S]].
     destruct Hop as [Hop Kop]. cbn [next_mode].
     eapply HJ_bind_d; [apply (HJ_until_m (fun k => tk_eqb k KCloseParen) m); reflexivity|].
     intros [in1|] [in2|] Hin; cbn [orel] in Hin; try contradiction; cbv beta iota;
       [|apply HJ_ret; intros s1 s2 S; split; [exact I | exact S]].
-    eapply HJ_bind_d; [apply (HJ_bump_m KCloseParen (mode_after m in1)); discriminate|].
+    eapply HJ_bind_d; [apply (HJ_bump_m KCloseParen (mode_after m in1)); reflexivity|].
     intros cp1 cp2 [Hcp Kcp]. cbv beta. apply HJ_ret. intros s1 s2 S. cbn [next_mode] in S. split.
     - cbn [orel]. apply j_cons; [exact Hop|]. rewrite Kop. cbn [next_mode].
       apply jsim_app_ksim; [exact Hin | constructor; [exact Hcp | constructor]].
@@ -300,8 +300,8 @@ Section Fun.
     destruct k1;
       try (apply HJ_ret; intros s1 s2 S; split; [eexists; exact Hacc|];
            apply (St_mono _ _ _ _ (fun l1 l2 (X : jsim _ l1 l2 /\ _) => jsim_jany _ _ _ (proj1 X)) S));
-      try (eapply HJ_bind_d; [apply HJ_bump_any_m; discriminate|]; intros t1 t2 Ht; cbv beta; apply Hstep; exact Ht).
-    eapply HJ_bind_d; [apply HJ_bump_any_m; discriminate|]. intros t1 t2 Ht. cbv beta.
+      try (eapply HJ_bind_d; [apply HJ_bump_any_m; reflexivity|]; intros t1 t2 Ht; cbv beta; apply Hstep; exact Ht).
+    eapply HJ_bind_d; [apply HJ_bump_any_m; reflexivity|]. intros t1 t2 Ht. cbv beta.
     destruct (has cfg X_INTERMEDIATE_PREPARATIONS); [|apply Hstep; exact Ht].
     destruct Ht as [Ht Kt]. destruct (acc_snoc m acc1 acc2 t1 t2 KAnd Hacc Ht Kt) as [Hacc' Em]. rewrite Em.
     eapply HJ_bind_d; [apply (paren_group_m (mode_after m (acc1 ++ [t1])))|].
@@ -375,7 +375,7 @@ Section Fun.
     { destruct (position_skipn _ _ _ P1) as (cp1 & a1 & E1 & C1). destruct (position_skipn _ _ _ P2) as (cp2 & a2 & E2 & C2).
       rewrite <- (tl_skipn n1), <- (tl_skipn n2).
       rewrite E1, E2 in *. cbn [tl]. apply tkb_true in C1.
-      assert (Kw : kind cp1 <> KWord) by (rewrite C1; discriminate).
+      assert (Kw : swt (kind cp1) = false) by (rewrite C1; reflexivity).
       destruct (jsim_cons_inv _ _ _ _ _ Xs Kw) as [_ Y]. eexists; exact Y. }
     remember (skipn (S n1) (t01 :: r1)) as af1 eqn:Ea1. remember (skipn (S n2) (t02 :: r2)) as af2 eqn:Ea2.
     clear Ea1 Ea2.
@@ -385,7 +385,7 @@ Section Fun.
     destruct (position_cons_false _ _ _ _ F01 P1) as (e1 & -> & Q1).
     destruct (position_cons_false _ _ _ _ F02 P2) as (e2 & -> & Q2).
     rewrite !inter_inner. cbn [firstn] in Xn.
-    assert (Kw0 : kind t01 <> KWord) by (rewrite K0; discriminate).
+    assert (Kw0 : swt (kind t01) = false) by (rewrite K0; reflexivity).
     destruct (jsim_cons_inv _ _ _ _ _ Xn Kw0) as [_ Hin].
     pose proof (jsim_filter_nwb _ _ _ Hin) as Hf. pose proof (Forall2_rev' _ _ _ Hf) as Hrv.
     remember (firstn (S (S e1)) (t01 :: r1)) as sl1 eqn:Es1. remember (firstn (S (S e2)) (t02 :: r2)) as sl2 eqn:Es2.
@@ -439,7 +439,7 @@ Section Fun.
     { apply HN_ret. split; [reflexivity | exact Hi]. }
     assert (Ht : krel t1 t2) by (destruct Hts as [m H]; exact (jsim_kinds_head _ _ _ _ _ H)).
     rewrite <- (krel_kind _ _ Ht). destruct (mod_bit (kind t1)) as [bit|] eqn:Eb; [|apply HN_panic_l].
-    assert (Kw : kind t1 <> KWord) by (intro E; rewrite E in Eb; discriminate).
+    assert (Kw : swt (kind t1) = false) by (destruct (kind t1); try discriminate Eb; reflexivity).
     pose proof (jany_cons_inv _ _ _ _ Hts Kw) as Hr.
     eapply HN_bind with (RA := prel (orel irel) jany).
     - destruct (tk_eqb (kind t1) KAnd && has cfg X_INTERMEDIATE_PREPARATIONS);
